@@ -1,0 +1,60 @@
+//go:build verif
+
+package jrpc2
+
+import (
+	"context"
+	"fmt"
+	"sort"
+	"strings"
+
+	"github.com/indexsupply/shovel/eth"
+)
+
+// Hooks for the verification harness in /verif (build tag "verif").
+// Add-only: exported views of unexported declarations; no behaviour is changed.
+
+// VerifCache wraps the segment cache used for blocks and headers.
+type VerifCache struct{ c cache }
+
+func NewVerifCache(maxreads int) *VerifCache { return &VerifCache{c: cache{maxreads: maxreads}} }
+
+// Get runs cache.get with the given fetch function.
+func (v *VerifCache) Get(start, limit uint64, f func() ([]eth.Block, error)) ([]eth.Block, error) {
+	return v.c.get(false, context.Background(), "", start, limit,
+		func(ctx context.Context, url string, start, limit uint64) ([]eth.Block, error) { return f() })
+}
+
+// Dump lists the cached segments: start:limit:nreads:done, sorted.
+func (v *VerifCache) Dump() string {
+	v.c.Lock()
+	defer v.c.Unlock()
+	var out []string
+	for k, s := range v.c.segments {
+		s.Lock()
+		out = append(out, fmt.Sprintf("%012d:%d:%d:%v", k.a, k.b, s.nreads, s.done))
+		s.Unlock()
+	}
+	sort.Strings(out)
+	return strings.Join(out, ",")
+}
+
+func NewVerifNumHash(maxreads int) *NumHash { return &NumHash{maxreads: maxreads} }
+
+func (nh *NumHash) VerifUpdate(n uint64, h []byte) { nh.update(eth.Uint64(n), h) }
+func (nh *NumHash) VerifError(err error)           { nh.error(err) }
+func (nh *NumHash) VerifGet(n uint64) (uint64, []byte, bool) {
+	return nh.get(context.Background(), n)
+}
+
+// VerifState returns the cached head and its bookkeeping.
+func (nh *NumHash) VerifState() (uint64, []byte, int, bool) {
+	nh.Lock()
+	defer nh.Unlock()
+	return uint64(nh.Num), append([]byte(nil), nh.Hash...), nh.nreads, nh.err != nil
+}
+
+// VerifValidate exposes validate.
+func VerifValidate(start, limit uint64, blocks []eth.Block) error {
+	return validate("verif", start, limit, blocks)
+}
